@@ -9,7 +9,7 @@ CHECKS = {
             'Trusted: Engine A/C term semantics; rustc + pinned crates; nalgebra only via a stub. NOT decided: interactions on inputs outside the modelled worlds (rustc per concrete output is the only complete oracle - a dynamic technique).',
             'DESIGN.md section 3 C01'),
     'C10': ('glam leaf-table inclusion in encase\'s impl table (read from the pinned encase source) + shared composite-type / derive / closure rules',
-            'The byte image written by encase is run-time behaviour and is NOT decided. Decided necessary structural clause: under Glam every vector / square-matrix leaf maps to a type for which encase-0.10/src/impls/glam.rs declares a vector/matrix impl of the same dimensions and scalar (never a plain array for a WGSL vector), scalars are encase-supported; arrays/structs/runtime arrays per C06 rules; ShaderType derived exactly on the closed host-shareable set when the switch is on (C09 rows + closure discipline).',
+            'The byte image written by encase is run-time behaviour and is NOT decided. Decided necessary structural clause: under Glam every vector / square-matrix leaf maps to a type for which encase-0.10/src/impls/glam.rs declares a vector/matrix impl of the same dimensions and scalar (never a plain array for a WGSL vector), scalars are encase-supported; arrays/structs/runtime arrays per C06 rules; ShaderType derived exactly on the closed host-shareable set when the switch is on (C09 rows + closure discipline). The clause on nested structs needs every struct reachable from a host-shareable variable to be emitted: C08\'s selection-formula and closure rules are evaluated in the same run.',
             'Trusted: encase lays out its impls per the WGSL rules; glam types. Known finding: f64 leaves have no encase impl.',
             'DESIGN.md section 3 C10'),
     'C14': ('hole-provenance / sibling-agreement rules on entry-point templates + finite evaluation of the fragment target-count table (syn-based abstract interpreter)',
@@ -73,7 +73,7 @@ CHECKS = {
             'Trusted: naga front end / validator / diagnostic renderer do not panic (library behaviour, not analysed).',
             'DESIGN.md section 3 C17'),
     'C18': ('whole-crate effect discipline over resolved callees in MIR: hash-order iteration, ambient input, retained state, gated process spawn',
-            'Decided for every resolved call site and static of the crate: hash containers are only used for membership (iteration accepted only into order-insensitive consumers); no env/time/fs/net/thread/random/pointer-address input in code reachable from the entry points; no static mut / interior-mutable static / thread-local; std::process only behind the rustfmt-gated call site. These are necessary and (given deterministic dependencies) sufficient structural conditions for the output to be a function of (source, include path, options).',
+            'Decided for every resolved call site and static of the crate: hash containers are only used for membership (iteration accepted only into order-insensitive consumers); no env/time/fs/net/thread/random/pointer-address input in code reachable from the entry points; no static mut / interior-mutable static / thread-local; std::process only behind the rustfmt-gated call site. These are necessary and (given deterministic dependencies) sufficient structural conditions for the output to be a function of (source, include path, options). R5: the spawned formatter child is reaped - from the point where the Child exists every path to a normal return passes wait()/wait_with_output() (formatter helpers inlined at MIR level).',
             'Trusted: determinism of naga, syn, prettyplease and of rustfmt itself; no hidden global state in dependencies.',
             'DESIGN.md section 3 C18'),
     'C19': ('MIR rules on the formatter functions: same tokens to both printers, no panic-capable callee, stdout use dominated by success/non-empty/write checks, identity text flow',
